@@ -1574,6 +1574,9 @@ class Interp:
             return getattr(obj, attr)
         if isinstance(obj, (str, bytes, list, dict, set, tuple, frozenset)):
             return ("pymethod", obj, attr)
+        if isinstance(obj, (int, float)) and not isinstance(obj, bool) and attr in (
+                "is_integer", "bit_length", "real", "imag", "conjugate", "as_integer_ratio", "hex", "numerator", "denominator"):
+            return getattr(obj, attr)
         if isinstance(obj, slice) and attr in ("start", "stop", "step"):
             return getattr(obj, attr)
         if type(obj).__module__ == "re":              # compiled patterns and match objects are values
